@@ -105,14 +105,13 @@ def parse_nodes(scn):
 
 
 class Sock:
-    __slots__ = ("name", "kind", "node", "open", "v4", "bound", "listening", "stale_listen",
+    __slots__ = ("name", "kind", "node", "open", "v4", "bound", "listening",
                  "pend", "last_held_t", "last_ep")
 
     def __init__(self, name, kind, node):
         self.name = name; self.kind = kind; self.node = node
         self.open = False; self.v4 = True; self.bound = None
-        self.listening = False      # acceptor: queue limit > 0
-        self.stale_listen = False   # listening flag survived a re-open without a new listen()
+        self.listening = False      # acceptor: queue limit > 0 (reset by close and by re-open)
         self.pend = None            # handler id of an accept-into naming this socket
         self.last_held_t = None     # acceptor: virtual time at which it last stopped holding a listening binding
         self.last_ep = None
@@ -154,13 +153,13 @@ class Ref:
         self.release(s)
         s.open = False
         if acceptor_close:
-            s.listening = False; s.stale_listen = False
+            s.listening = False
 
     def reopen(self, s, v4):
+        """open() closes first: the binding is released; an acceptor also stops listening"""
         self.release(s)
         s.open = True; s.v4 = v4
-        if s.listening:
-            s.stale_listen = True
+        s.listening = False
 
     def resolve(self, s, addr):
         ips = self.nodes.get(s.node, [])
@@ -318,7 +317,7 @@ class Ref:
                     try: qs = int(op[1])
                     except ValueError: qs = -1
                 if qs == -1: qs = 20
-                s.listening = qs > 0; s.stale_listen = False
+                s.listening = qs > 0
             if result != want:
                 self.fail("listen-result", "%s => %s, expected %s" % (where, result, want))
         elif m == "move" and kind in "su" and len(op) > 1:
@@ -360,8 +359,6 @@ class Ref:
                     exp["want"] = "refused"; exp["why"] = "no socket holds %s" % fmt_ep(tgt)
                 elif not (osock.kind == "a" and osock.listening):
                     exp["want"] = "refused"; exp["why"] = "%s holds %s but is not listening" % (owner, fmt_ep(tgt))
-                elif osock.stale_listen:
-                    exp["want"] = None          # listen state inherited through a re-open: not C11's business
                 else:
                     exp["want"] = "accepted"; exp["why"] = "%s holds %s and is listening" % (owner, fmt_ep(tgt))
             if s.bound is not None:
